@@ -31,6 +31,7 @@ def run(repo: Repo, tier: str, res: CheckResult, seed: int = 0) -> None:
     eq_hash_rule(repo, m, res)
     union_pipeline_rule(repo, m, res)
     implicit_params_rule(repo, res)
+    literal_truthiness_rule(repo, m, res)
     res.assumptions = list(ASSUMPTIONS)
 
 
@@ -159,6 +160,19 @@ def ordering_rule(repo: Repo, m: ModuleInfo, res: CheckResult, prop: str = "C15"
                                         "on how the hint was spelled (source)")
                 if ".source" in txt or "_source" in txt:
                     problems.append("the key depends on the source spelling")
+                # origins are compared by identity; their repr is not injective (two classes made by one factory function, two
+                # TypeVars named T): without an identity component such members tie and keep the written order
+                if not any(isinstance(c, ast.Call) and norm(c.func) == "id" and c.args and norm(c.args[0]) == f"{obj}.origin"
+                           for c in ast.walk(r.value)):
+                    problems.append("the key of a normalised type identifies its origin by repr only: distinct classes / TypeVars "
+                                    "with the same module and name tie (Union[A1, A2] != Union[A2, A1])")
+        if cname == "_LiteralNormType":
+            # enum members: the class is part of the key by identity, not only by repr
+            for r in rets:
+                for e in ast.walk(r.value):
+                    if isinstance(e, ast.JoinedStr) and f"type({obj})" in norm(e) and f"id(type({obj}))" not in norm(e):
+                        problems.append("enum members are keyed by repr of their class and name: members of two enum classes with the "
+                                        "same qualified name tie")
         if cname == "_UnionNormType":
             # an argument may be a TUPLE of normalised types (the parameter list of Callable): repr() of it formats the
             # members with their `source`, so the key must recurse into tuples as well
@@ -440,3 +454,42 @@ def implicit_params_rule(repo: Repo, res: CheckResult) -> None:
                             f"{arity.get(k, 'no entry')} in the table `{k.split('.')[-1]}` and `{k.split('.')[-1]}[{', '.join(['Any'] * a)}]` "
                             "normalise to unequal forms", tbl.lineno))
     res.count("IMPLICIT.obligations", n, 4)
+
+
+def literal_truthiness_rule(repo: Repo, m: ModuleInfo, res: CheckResult) -> None:
+    """The arguments of a Literal are user values: 0, False, '' and b'' are legitimate cases. Wherever the normaliser selects or
+    drops Literal arguments, the selection must name the value it means (`is None`, an isinstance test); a truth test
+    (`filter(None, args)`, `[a for a in args if a]`, `if arg:`) drops every falsy case together with None, so
+    Literal[None, 0, 1] normalises to Union[None, Literal[1]] -- no longer equal to Optional[Literal[0, 1]]."""
+    n = 0
+    fns = [(m.qualname(f), f) for f in ast.walk(m.tree) if isinstance(f, ast.FunctionDef)]
+    for q, fn in fns:
+        if "literal" not in fn.name.lower():
+            continue
+        n += 1
+        res.evaluated(f"literal-truthiness:{q}", True)
+        bad = []
+        for x in ast.walk(fn):
+            if isinstance(x, ast.Call) and norm(x.func) == "filter" and x.args and isinstance(x.args[0], ast.Constant) and x.args[0].value is None:
+                bad.append(x)
+            if isinstance(x, ast.Call) and norm(x.func) == "filter" and x.args and norm(x.args[0]) == "bool":
+                bad.append(x)
+            if isinstance(x, (ast.ListComp, ast.SetComp, ast.GeneratorExp, ast.DictComp)):
+                for g in x.generators:
+                    tv = {t.id for t in ast.walk(g.target) if isinstance(t, ast.Name)}
+                    for c in g.ifs:
+                        core = c.operand if isinstance(c, ast.UnaryOp) and isinstance(c.op, ast.Not) else c
+                        if isinstance(core, ast.Name) and core.id in tv:
+                            bad.append(c)
+            if isinstance(x, ast.For):
+                tv = {t.id for t in ast.walk(x.target) if isinstance(t, ast.Name)}
+                for c in [y for y in ast.walk(x) if isinstance(y, (ast.If, ast.IfExp))]:
+                    core = c.test.operand if isinstance(c.test, ast.UnaryOp) and isinstance(c.test.op, ast.Not) else c.test
+                    if isinstance(core, ast.Name) and core.id in tv:
+                        bad.append(c.test)
+        for b in bad:
+            res.add(Finding("C15", "LITERAL.args-selected-by-truth", m.rel, q, norm(b)[:100],
+                            f"`{norm(b)[:80]}` selects Literal arguments by their truth value: 0, False, '' and b'' are dropped together "
+                            "with None, so Literal[None, 0, 1] loses the case 0 and stops being equal to Optional[Literal[0, 1]]",
+                            getattr(b, "lineno", fn.lineno)))
+    res.count("LITERAL.functions", n, 3)
